@@ -777,3 +777,92 @@ class Explorer:
                 for succ, s2 in self.dom.branch(blk, s):
                     work.append((succ, 0, s2, key))
         return self
+
+
+class InlineDomain(ValueDomain):
+    """ValueDomain that evaluates calls to selected (side-effect free) helper
+    functions by exploring the callee in the caller's abstract context:
+    constant arguments are bound to the parameters and facts about fields of a
+    pointer argument are carried over to the parameter.  Results are memoised."""
+
+    INLINE = ()
+    MAX_DEPTH = 2
+    _cache = {}
+
+    def __init__(self, fn, prog, depth=0):
+        super().__init__(fn)
+        self.prog = prog
+        self.depth = depth
+
+    def sub_domain(self, callee):
+        return type(self)(callee, self.prog, self.depth + 1)
+
+    def call_value(self, call, st):
+        name = call.get("fn")
+        if name in self.INLINE and self.depth < self.MAX_DEPTH:
+            callee = self.prog.resolve_call(self.fn, name)
+            if callee is not None and callee.blocks:
+                return self.inline(call, callee, st)
+        return self.extern_value(call, st)
+
+    def extern_value(self, call, st):
+        return TOP
+
+    def inline(self, call, callee, st):
+        init = {}
+        args = call.get("args", [])
+        for p, a in zip(callee.params, args):
+            pk = ("v", p["id"], p["n"])
+            v = self.eval(a, st)
+            if not v.is_top():
+                init[pk] = v
+            ak = lvalue_key(a)
+            if ak is not None and ak[0] == "v":
+                for k, val in st.items():
+                    if isinstance(k, tuple) and k[0] == "m" and k[1] == ak:
+                        init[("m", pk, k[2])] = val
+        s0 = State(init)
+        ck = (type(self).__name__, callee.unit.name, callee.name, s0)
+        if ck in InlineDomain._cache:
+            return InlineDomain._cache[ck]
+        dom = self.sub_domain(callee)
+        rets = []
+
+        class _D(type(dom)):
+            pass
+        orig = dom.on_elem
+
+        def on_elem(elem, s, blk, idx, orig=orig, dom=dom):
+            s = orig(elem, s, blk, idx)
+            if isinstance(s, State) and elem.get("k") == "ret":
+                s = s.set("$iret", dom.eval(elem.get("e"), s) if elem.get("e") is not None else None)
+            return s
+        dom.on_elem = on_elem
+        dom.tracked_all = True
+        ex = Explorer(callee, dom, max_states=50000).run(s0)
+        out = None
+        for s, _ in ex.exits:
+            v = s.get("$iret")
+            if not isinstance(v, AVal):
+                v = TOP
+            out = v if out is None else join(out, v)
+        if out is None:
+            out = TOP
+        InlineDomain._cache[ck] = out
+        return out
+
+
+def allreduce_min_effect(dom, call, st):
+    """MPI_Allreduce(&x, &y, 1, MPI_INT, MPI_MIN, comm): NC error codes are negative, so
+    the MIN over ranks of a failing status is failing: y != 0 whenever x != 0."""
+    from facts import macro_of
+    a = call.get("args", [])
+    if call.get("fn") == "MPI_Allreduce" and len(a) >= 5 and macro_of(a[4]) == "MPI_MIN" and const_value(a[2]) == 1:
+        s0, r0 = strip(a[0]), strip(a[1])
+        if isinstance(s0, dict) and isinstance(r0, dict) and s0.get("k") == "un" and s0.get("op") == "&" \
+                and r0.get("k") == "un" and r0.get("op") == "&":
+            sv = dom.eval(s0["e"], st)
+            rk = lvalue_key(r0["e"])
+            if rk is not None and not sv.may_be_zero() and dom.tracked(rk):
+                return st.set(rk, NONZERO)
+    return st
